@@ -5,6 +5,9 @@
 (*   Reset                       new history (a fresh stretch of stream)   *)
 (*   Enc  kind p bytes [again]   pack.ToBytesPack(p) = bytes; `again` = a   *)
 (*                               second ToBytesPack of the same object     *)
+(*                               (held: the caller kept the result while   *)
+(*                               the client sent frames; bytes = what it   *)
+(*                               shows afterwards)                         *)
 (*   Send kind p lic             client.Send/SendFlush(p) under the license*)
 (*                               text in force (client's or per-send)      *)
 (*   Recv bytes                  the next frame the loopback peer took off *)
